@@ -9,7 +9,7 @@ From Coq Require Import Permutation.
    non-empty case of the same statement, k = 0 holds too), EVERY decoder verdict [ok] and EVERY segmentation
    of their stream (any list of chunks whose concatenation is the stream: cuts inside the prefix, inside
    bodies, several frames per chunk, 1-octet chunks, empty chunks), each reader hands to the handler exactly
-   [expect ok frames]: the frames, in order, each once, up to the first one the decoder rejects (which closes
+   [rd_expect ok frames]: the frames, in order, each once, up to the first one the decoder rejects (which closes
    the connection).  In particular, when every frame decodes, the decoded sequence IS the list of frames and
    the reader is left waiting for more input.
    TCP reader: for every bufio capacity >= 1 (the code uses 1024). *)
@@ -17,11 +17,11 @@ Theorem C13_decode_once_tcp : forall (ok : list N -> bool) (cap : nat) (frames :
   1 <= cap ->
   Forall (fun f => 1 <= length f /\ (N.of_nat (length f) < 65536)%N) frames ->
   concat segs = stream_of frames ->
-  tcp_run ok cap segs = Ok (expect ok frames) /\
-  (forallb ok frames = true -> tcp_run ok cap segs = Ok (frames, NeedMore)).
+  tcp_run ok cap segs = Ok (rd_expect ok frames) /\
+  (forallb ok frames = true -> tcp_run ok cap segs = Ok (frames, RdNeedMore)).
 Proof.
   intros ok cap frames segs Hc Hg E.
-  assert (tcp_run ok cap segs = Ok (expect ok frames)) as H.
+  assert (tcp_run ok cap segs = Ok (rd_expect ok frames)) as H.
   { apply tcp_decode_once; auto. eapply Forall_impl; [|exact Hg]. intros f [_ Hf]. exact Hf. }
   split; [exact H|]. intros Ha. rewrite H. f_equal. now apply expect_all.
 Qed.
@@ -30,11 +30,11 @@ Print Assumptions C13_decode_once_tcp.
 Theorem C13_decode_once_gnet : forall (ok : list N -> bool) (frames : list (list N)) (segs : list (list N)),
   Forall (fun f => 1 <= length f /\ (N.of_nat (length f) < 65536)%N) frames ->
   concat segs = stream_of frames ->
-  gnet_run ok segs = Ok (expect ok frames) /\
-  (forallb ok frames = true -> gnet_run ok segs = Ok (frames, NeedMore)).
+  gnet_run ok segs = Ok (rd_expect ok frames) /\
+  (forallb ok frames = true -> gnet_run ok segs = Ok (frames, RdNeedMore)).
 Proof.
   intros ok frames segs Hg E.
-  assert (gnet_run ok segs = Ok (expect ok frames)) as H by (apply gnet_decode_once; auto).
+  assert (gnet_run ok segs = Ok (rd_expect ok frames)) as H by (apply gnet_decode_once; auto).
   split; [exact H|]. intros Ha. rewrite H. f_equal. now apply expect_all.
 Qed.
 Print Assumptions C13_decode_once_gnet.
@@ -44,7 +44,7 @@ Theorem C13_decode_once : forall (frames : list (list N)) (segs : list (list N))
   Forall (fun f => 1 <= length f /\ (N.of_nat (length f) < 65536)%N) frames ->
   forallb dns_ok frames = true ->
   concat segs = stream_of frames ->
-  tcp_run_dns segs = Ok (frames, NeedMore) /\ gnet_run_dns segs = Ok (frames, NeedMore).
+  tcp_run_dns segs = Ok (frames, RdNeedMore) /\ gnet_run_dns segs = Ok (frames, RdNeedMore).
 Proof.
   intros frames segs Hg Ha E. split.
   - apply (C13_decode_once_tcp dns_ok cap1k frames segs cap1k_pos Hg E). exact Ha.
@@ -52,8 +52,8 @@ Proof.
 Qed.
 Print Assumptions C13_decode_once.
 
-(* what [expect] delivers is a prefix of what was sent: nothing twice, nothing invented, nothing reordered *)
-Theorem C13_expect_prefix : forall ok frames, exists rest, frames = fst (expect ok frames) ++ rest.
+(* what [rd_expect] delivers is a prefix of what was sent: nothing twice, nothing invented, nothing reordered *)
+Theorem C13_expect_prefix : forall ok frames, exists rest, frames = fst (rd_expect ok frames) ++ rest.
 Proof. exact expect_prefix. Qed.
 Print Assumptions C13_expect_prefix.
 
@@ -87,18 +87,18 @@ Print Assumptions C13_sched_is_run.
    counter is n with n+1 > L is answered REFUSED in that very step and leaves the state (counter included)
    unchanged — it is neither dropped nor counted permanently; below the limit it is admitted; and for every
    query, arrivals = refusals + answers + still running (nothing is dropped, nothing answered twice). *)
-Theorem C13_over_limit : forall (L : nat) (evs : list cev) (st : cstate) (outs : list cout),
-  crun L c_init evs = Some (st, outs) ->
-  (c_n st = length (c_fl st) /\ c_n st <= L) /\
-  (forall q, L < c_n st + 1 -> cstep L st (Arrive q) = Some (st, [ORefused q])) /\
-  (forall q, c_n st + 1 <= L -> cstep L st (Arrive q) = Some (mkC (S (c_n st)) (q :: c_fl st), [OAdmitted q])) /\
-  (forall q, n_arrive q evs = n_refused q outs + n_answer q outs + count_nat q (c_fl st)).
+Theorem C13_over_limit : forall (L : nat) (evs : list infl_ev) (st : infl_state) (outs : list infl_out),
+  infl_run L infl_init evs = Some (st, outs) ->
+  (infl_n st = length (infl_fl st) /\ infl_n st <= L) /\
+  (forall q, L < infl_n st + 1 -> infl_step L st (InflArrive q) = Some (st, [InflRefused q])) /\
+  (forall q, infl_n st + 1 <= L -> infl_step L st (InflArrive q) = Some (mkInfl (S (infl_n st)) (q :: infl_fl st), [InflAdmitted q])) /\
+  (forall q, n_arrive q evs = n_refused q outs + n_answer q outs + count_nat q (infl_fl st)).
 Proof.
   intros L evs st outs H. split; [|split; [|split]].
-  - exact (crun_inv L evs c_init st outs (cinit_inv L) H).
+  - exact (crun_inv L evs infl_init st outs (cinit_inv L) H).
   - intros q. apply over_limit_refused.
   - intros q. apply within_limit_admitted.
-  - intros q. exact (crun_account L q evs c_init st outs H).
+  - intros q. exact (crun_account L q evs infl_init st outs H).
 Qed.
 Print Assumptions C13_over_limit.
 
@@ -110,14 +110,14 @@ Print Assumptions C13_over_limit.
    closes on the empty frame. *)
 Example C13_zero_len_note :
   let okk := fun b : list N => match b with [] => false | _ => true end in
-  gnet_run okk [[0; 0; 0; 1; 7; 0; 1; 8]%N] = Ok ([[0; 1; 7; 0; 1; 8]%N], NeedMore) /\
-  gnet_run okk [[0; 0]%N; [0; 1; 7; 0; 1; 8]%N] = Ok ([], Closed) /\
-  tcp_run okk 4 [[0; 0; 0; 1; 7; 0; 1; 8]%N] = Ok ([], Closed).
+  gnet_run okk [[0; 0; 0; 1; 7; 0; 1; 8]%N] = Ok ([[0; 1; 7; 0; 1; 8]%N], RdNeedMore) /\
+  gnet_run okk [[0; 0]%N; [0; 1; 7; 0; 1; 8]%N] = Ok ([], RdClosed) /\
+  tcp_run okk 4 [[0; 0; 0; 1; 7; 0; 1; 8]%N] = Ok ([], RdClosed).
 Proof. vm_compute. auto. Qed.
 
 (* ---------------------------------------------------------------------------------------------------
    C01_stream_safe (stream clause of C01).  For EVERY list of segments of ARBITRARY octets and every decoder
-   verdict, both readers yield a list of frames and then NeedMore or Closed: never Panic (the slice expressions
+   verdict, both readers yield a list of frames and then RdNeedMore or RdClosed: never Panic (the slice expressions
    of OnTraffic are never out of range), never out of fuel (the loops terminate). *)
 Theorem C01_stream_safe : forall (ok : list N -> bool) (cap : nat) (segs : list (list N)),
   1 <= cap ->
@@ -137,10 +137,10 @@ Definition ex_ok (b : list N) : bool := match b with 99%N :: _ => false | [] => 
 Example C13_example_decode :
   Forall (fun f => 1 <= length f /\ (N.of_nat (length f) < 65536)%N) ex_frames /\
   forallb ex_ok ex_frames = true /\
-  gnet_run ex_ok (cut_at (repeat 1 12) (stream_of ex_frames)) = Ok (ex_frames, NeedMore) /\
-  tcp_run ex_ok 4 (cut_at [1; 3; 2; 4] (stream_of ex_frames)) = Ok (ex_frames, NeedMore) /\
-  gnet_run ex_ok [stream_of ex_frames] = Ok (ex_frames, NeedMore) /\
-  gnet_run ex_ok (cut_at [1; 3; 2; 4] (stream_of [[1; 2; 3]; [99]; [5; 6]]%N)) = Ok ([[1; 2; 3]%N], Closed).
+  gnet_run ex_ok (cut_at (repeat 1 12) (stream_of ex_frames)) = Ok (ex_frames, RdNeedMore) /\
+  tcp_run ex_ok 4 (cut_at [1; 3; 2; 4] (stream_of ex_frames)) = Ok (ex_frames, RdNeedMore) /\
+  gnet_run ex_ok [stream_of ex_frames] = Ok (ex_frames, RdNeedMore) /\
+  gnet_run ex_ok (cut_at [1; 3; 2; 4] (stream_of [[1; 2; 3]; [99]; [5; 6]]%N)) = Ok ([[1; 2; 3]%N], RdClosed).
 Proof.
   split; [|vm_compute; auto]. unfold ex_frames. repeat constructor; cbn; lia.
 Qed.
@@ -158,6 +158,6 @@ Proof. vm_compute. repeat split; discriminate. Qed.
    at the end the counter is back to 0 *)
 Example C13_example_over_limit :
   burst_refused 2 5 = [false; false; true; true; true] /\
-  crun 2 c_init [Arrive 0; Arrive 1; Arrive 2; Finish 0; Arrive 3; Arrive 4; Finish 1; Finish 3] =
-    Some (mkC 0 [], [OAdmitted 0; OAdmitted 1; ORefused 2; OAnswer 0; OAdmitted 3; ORefused 4; OAnswer 1; OAnswer 3]).
+  infl_run 2 infl_init [InflArrive 0; InflArrive 1; InflArrive 2; InflFinish 0; InflArrive 3; InflArrive 4; InflFinish 1; InflFinish 3] =
+    Some (mkInfl 0 [], [InflAdmitted 0; InflAdmitted 1; InflRefused 2; InflAnswer 0; InflAdmitted 3; InflRefused 4; InflAnswer 1; InflAnswer 3]).
 Proof. vm_compute. auto. Qed.
